@@ -51,12 +51,20 @@ def make_app():
 
 def make_app_lxml():
     """Fifth application: Soap11 with schema validation (one compiled schema object serves every request)."""
-    from spyne import Application, Service, srpc, Integer, Unicode
+    from spyne import Application, Service, srpc, Integer, Unicode, ComplexModel
+
     from spyne.protocol.soap import Soap11
+
+    class Who(ComplexModel):          # (a type in a namespace of its own: the schemas of the application import each other)
+        __namespace__ = 'ns.who'
+        name = Unicode(max_len=5)
 
     class S(Service):
         @srpc(Integer(ge=0), Unicode(max_len=3), _returns=Integer)
         def v(a, s): return a
+
+        @srpc(Who, _returns=Unicode)
+        def greet(w): return w.name
     return Application([S], 'tns', name='App5', in_protocol=Soap11(validator='lxml'), out_protocol=Soap11())
 
 
@@ -142,7 +150,11 @@ def make_app_jx():
 
 
 LX_REQS = {'vneg': '<tns:v><tns:a>-5</tns:a><tns:s>ab</tns:s></tns:v>', 'vlong': '<tns:v><tns:a>5</tns:a><tns:s>abcdef</tns:s></tns:v>',
-           'vok': '<tns:v><tns:a>5</tns:a><tns:s>ab</tns:s></tns:v>', 'vabc': '<tns:v><tns:a>abc</tns:a><tns:s>ab</tns:s></tns:v>'}
+           'vok': '<tns:v><tns:a>5</tns:a><tns:s>ab</tns:s></tns:v>', 'vabc': '<tns:v><tns:a>abc</tns:a><tns:s>ab</tns:s></tns:v>',
+           'vwho': '<tns:greet><tns:w><w:name xmlns:w="ns.who">ann</w:name></tns:w></tns:greet>',
+           'vwholong': '<tns:greet><tns:w><w:name xmlns:w="ns.who">annabelle</w:name></tns:w></tns:greet>',
+           'lwsdl': None}     # (lwsdl: the ?wsdl request of THIS application)
+WSDLS = ('wsdl', 'lwsdl')
 JX_REQS = {
     'jreg': ('application/json', b'{"register": {"a": {"name": "ann", "secret": "opensesame"}}}'),
     'jchk1': ('application/json', b'{"check": {"a": {"name": "bob", "secret": "hunter2"}}}'),
@@ -178,7 +190,7 @@ def env_for(name):
         path, qs = JSON_REQS[name]
         return {'REQUEST_METHOD': 'GET', 'PATH_INFO': path, 'QUERY_STRING': qs, 'wsgi.input': io.BytesIO(b''),
                 'wsgi.url_scheme': 'http', 'SERVER_NAME': 'x', 'SERVER_PORT': '80'}
-    if name == 'wsdl':
+    if name in WSDLS:
         return {'REQUEST_METHOD': 'GET', 'PATH_INFO': '/', 'QUERY_STRING': 'wsdl', 'wsgi.input': io.BytesIO(b''),
                 'wsgi.url_scheme': 'http', 'SERVER_NAME': 'x', 'SERVER_PORT': '80'}
     body = ('<e:Envelope xmlns:e="%s" xmlns:tns="tns"><e:Body>%s</e:Body></e:Envelope>' % (E, LX_REQS[name] if name in LX_REQS else REQS[name])).encode()
@@ -267,7 +279,9 @@ def targets():
     import spyne.protocol._base as PB, spyne.model._base as MB, spyne.server.wsgi as W
     import spyne.interface.wsdl.wsdl11 as WS, spyne.context as CX
     import spyne.protocol.xml as PX
-    return {PX.__file__: {'_XmlDocument__validate_lxml', '__validate_lxml'},
+    import spyne.interface.xml_schema._base as XB
+    return {PX.__file__: {'_XmlDocument__validate_lxml', '__validate_lxml', 'get_validation_schema', 'validate_body'},
+            XB.__file__: {'build_validation_schema', 'build_interface_document', 'build_schema_nodes', 'get_interface_document'},
             IB.__file__: {'get_namespace_prefix'}, M.__file__: None, CD.__file__: None,
             PB.__file__: None, MB.__file__: {'get_namespace_prefix', 'get_type_name_ns'},
             W.__file__: {'handle_wsdl_request'}, WS.__file__: {'build_interface_document', 'get_interface_document'}}
